@@ -1,9 +1,10 @@
-import Tapeverif.Lemmas.Codec
-import Tapeverif.Model.Tools
+import Tapeverif.Lemmas.RunInstr
 /-! # C14 — delegation: certificate serialisation round-trips for every field value -/
 namespace TV.C14
 
-open Tools
+open Instr Tools
+
+variable (H : Hashes) (C : Curve)
 
 /-- C14 (serialisation): for every certificate with a 32-byte delegate key, timestamps below
     2^32 (the builder admits `< 2^31`), any may-delegate flag and a 64-byte signature, unpacking
@@ -60,5 +61,287 @@ theorem cert_may_byte (c : Certificate) (hd : c.delegate.length = 32) :
 /-- Non-vacuity -/
 example : (Certificate.unpack (Certificate.pack ⟨List.replicate 32 7, 5, 2^31 - 1, true, List.replicate 64 9⟩)).map (·.endTs) = some (2^31 - 1) := by
   decide
+
+/-! ### the single-certificate lock, executed symbolically -/
+
+/-- `make_delegate_key_lock`, instruction by instruction -/
+def delegateKeyLockSeq (root : Bytes) (flags : Nat) : Bytes :=
+      Tools.pushInt 41 ++ (SPLIT ++ (writeCache "s" 1 ++ (DUP ++ (Tools.pushInt 40 ++ (SPLIT ++ (POP0 ++
+      (Tools.pushInt 36 ++ (SPLIT ++ (writeCache "e" 1 ++ (Tools.pushInt 32 ++ (SPLIT ++ (writeCache "b" 1 ++
+      (writeCache "d" 1 ++ (readCache "b" ++ (opc CTSV ++ (readCache "e" ++ (opc CTS ++ (opc NOT ++ (opc VERIFY ++
+      (readCache "s" ++ (SWAP2 ++ (pushB root ++ (CSS ++ (opc VERIFY ++ (readCache "d" ++ CHECK_SIG flags)))))))))))))))))))))))))
+
+theorem delegateKeyLock_bytes (root : Bytes) (flags : Nat) :
+    delegateKeyLock root flags = delegateKeyLockSeq root flags := by
+  unfold delegateKeyLock delegateKeyLockSeq certChecks
+  generalize Tools.pushInt 41 = p41
+  generalize Tools.pushInt 40 = p40
+  generalize Tools.pushInt 36 = p36
+  generalize Tools.pushInt 32 = p32
+  generalize pushB root = pr
+  simp only [Bool.false_eq_true, ↓reduceIte, List.append_assoc]
+
+
+/-- the C14 acceptance condition of the single-certificate lock, as a function of its inputs -/
+def delegateSpec (cfg : Cfg) (cache : List (CKey × CVal)) (root dk b4 e4 csig sig : Bytes) (m : UInt8) (flags : Nat)
+    (t thr : Int) (st : List Bytes) : Except Err (List Bytes) :=
+  if C16.tsAccept t cfg.now thr b4 = false then .error (.user .see)
+  else if C16.tsAccept t cfg.now thr e4 = true then .error (.user .see)
+  else if Sodium.verify H C root (dk ++ b4 ++ e4 ++ [m]) csig = false then .error (.user .see)
+  else match SigPure.checkSig H C cfg.lim.maxItemSize cache flags sig dk with
+    | .ok b => .ok (boolBytes b :: st)
+    | .error e => .error (.user e)
+
+set_option maxHeartbeats 1600000 in
+/-- **C14, single-certificate lock, exact acceptance condition.** For every root key, certificate
+    fields, certificate signature, final signature, cache, timestamp, clock, threshold and limits
+    (no signature-extension plugin): running `make_delegate_key_lock(root, flags)` on a stack
+    `cert :: sig :: st` ends with exactly `delegateSpec`: an error unless `t` is accepted against
+    `begin` (t ≥ begin, not ahead of the clock by the slack or more), *not* accepted against `end`,
+    and the certificate signature verifies under the root over (delegate ‖ begin ‖ end ‖ may);
+    then exactly the C02 verdict of the final signature under the **delegate** key. -/
+theorem delegateKeyLock_run (cfg : Cfg) (hno : cfg.sigExts = []) (root dk b4 e4 csig sig : Bytes) (m : UInt8)
+    (flags : Nat) (st : List Bytes) (sh : Shared) (count : Nat) (t thr : Int)
+    (hroot : root.length = 32) (hdk : dk.length = 32) (hb4 : b4.length = 4) (he4 : e4.length = 4) (hcs : csig.length = 64)
+    (hfl : flags < 256)
+    (hs : sh.stack = (dk ++ b4 ++ e4 ++ [m] ++ csig) :: sig :: st) (hr : sh.returned = false)
+    (ht : lookupC C16.tsKey sh.cache = some (.atom (.int t))) (hthr : cfg.tsThreshold = some thr)
+    (hsz : 105 ≤ cfg.lim.maxItemSize) (hroom : st.length + 6 ≤ cfg.lim.maxItems) :
+    Ends (instrTable H C cfg) cfg.lim (topFrame (delegateKeyLock root flags) count) sh
+      (fun r => Res.summary r = delegateSpec H C cfg sh.cache root dk b4 e4 csig sig m flags t thr st) := by
+  rw [delegateKeyLock_bytes]
+  unfold topFrame
+  generalize hlen : (delegateKeyLockSeq root flags).length = len
+  unfold delegateKeyLockSeq
+  have hcap : len < len + 1 := by omega
+  have h41 : Tools.pushInt 41 = pushB [41] := by decide
+  have h40 : Tools.pushInt 40 = pushB [40] := by decide
+  have h36 : Tools.pushInt 36 = pushB [36] := by decide
+  have h32 : Tools.pushInt 32 = pushB [32] := by decide
+  rw [h41, h40, h36, h32]
+  -- the certificate's parts
+  generalize hp36 : dk ++ b4 = p36 at *
+  generalize hp40 : p36 ++ e4 = p40 at *
+  generalize hpre : p40 ++ [m] = pre at *
+  have l36 : p36.length = 36 := by subst hp36; simp [hdk, hb4]
+  have l40 : p40.length = 40 := by subst hp40; simp [l36, he4]
+  have l41 : pre.length = 41 := by subst hpre; simp [l40]
+  have lcert : (pre ++ csig).length = 105 := by simp [l41, hcs]
+  have hM := cfg.lim.maxItemSize
+  -- push 41, split: [csig, pre, sig]
+  refine Ends.step (fun r h => run_pushB H C cfg _ sh [41] _ r (by decide) (by decide) rfl hcap hr (by simp; omega) (by rw [hs]; simp; omega) h) ?_
+  dsimp only
+  refine Ends.step (fun r h => run_split H C cfg _ _ _ 41 [41] (pre ++ csig) (sig :: st) r rfl hcap hr (by rw [hs]) (by decide) (by omega) (by omega) (by simp; omega) h) ?_
+  dsimp only
+  rw [take_append_len _ _ _ l41, drop_append_len _ _ _ l41]
+  -- s := csig
+  refine Ends.step (fun r h => run_writeCache1 H C cfg _ _ _ (asciiBytes "s") csig (pre :: sig :: st) r rfl (by decide) (by decide) hcap hr rfl h) ?_
+  dsimp only
+  -- dup; push 40; split; pop0
+  refine Ends.step (fun r h => run_dup H C cfg _ _ _ pre (sig :: st) r rfl hcap hr rfl (by omega) (by simp; omega) h) ?_
+  dsimp only
+  refine Ends.step (fun r h => run_pushB H C cfg _ _ [40] _ r (by decide) (by decide) rfl hcap hr (by simp; omega) (by simp; omega) h) ?_
+  dsimp only
+  refine Ends.step (fun r h => run_split H C cfg _ _ _ 40 [40] pre (pre :: sig :: st) r rfl hcap hr rfl (by decide) (by omega) (by omega) (by simp; omega) h) ?_
+  dsimp only
+  rw [← hpre, take_append_len _ _ _ l40, drop_append_len _ _ _ l40, hpre]
+  refine Ends.step (fun r h => run_pop0 H C cfg _ _ _ [m] (p40 :: pre :: sig :: st) r rfl hcap hr rfl h) ?_
+  dsimp only
+  -- push 36; split; e := e4
+  refine Ends.step (fun r h => run_pushB H C cfg _ _ [36] _ r (by decide) (by decide) rfl hcap hr (by simp; omega) (by simp; omega) h) ?_
+  dsimp only
+  refine Ends.step (fun r h => run_split H C cfg _ _ _ 36 [36] p40 (pre :: sig :: st) r rfl hcap hr rfl (by decide) (by omega) (by omega) (by simp; omega) h) ?_
+  dsimp only
+  rw [← hp40, take_append_len _ _ _ l36, drop_append_len _ _ _ l36]
+  refine Ends.step (fun r h => run_writeCache1 H C cfg _ _ _ (asciiBytes "e") e4 (p36 :: pre :: sig :: st) r rfl (by decide) (by decide) hcap hr rfl h) ?_
+  dsimp only
+  -- push 32; split; b := b4; d := dk
+  refine Ends.step (fun r h => run_pushB H C cfg _ _ [32] _ r (by decide) (by decide) rfl hcap hr (by simp; omega) (by simp; omega) h) ?_
+  dsimp only
+  refine Ends.step (fun r h => run_split H C cfg _ _ _ 32 [32] p36 (pre :: sig :: st) r rfl hcap hr rfl (by decide) (by omega) (by omega) (by simp; omega) h) ?_
+  dsimp only
+  rw [← hp36, take_append_len _ _ _ hdk, drop_append_len _ _ _ hdk]
+  refine Ends.step (fun r h => run_writeCache1 H C cfg _ _ _ (asciiBytes "b") b4 (dk :: pre :: sig :: st) r rfl (by decide) (by decide) hcap hr rfl h) ?_
+  dsimp only
+  refine Ends.step (fun r h => run_writeCache1 H C cfg _ _ _ (asciiBytes "d") dk (pre :: sig :: st) r rfl (by decide) (by decide) hcap hr rfl h) ?_
+  dsimp only
+  -- the cache now holds d, b, e, P, s above the embedder's entries
+  generalize hcache : ((CKey.byt (asciiBytes "d"), CVal.list [Atom.bytes dk]) :: (CKey.byt (asciiBytes "b"), CVal.list [Atom.bytes b4]) ::
+      (CKey.byt (asciiBytes "e"), CVal.list [Atom.bytes e4]) :: (CKey.byt pKey, CVal.list [Atom.bytes [m]]) ::
+      (CKey.byt (asciiBytes "s"), CVal.list [Atom.bytes csig]) :: sh.cache) = cache'
+  have hts : lookupC C16.tsKey cache' = some (.atom (.int t)) := by
+    subst hcache
+    simp only [C16.tsKey, lookupC_str_cons_byt]
+    exact ht
+  have hlb : lookupC (.byt (asciiBytes "b")) cache' = some (.list [.bytes b4]) := by
+    subst hcache
+    rw [lookupC_byt_cons_ne _ _ _ _ (by decide), lookupC_byt_cons_eq]
+  have hle : lookupC (.byt (asciiBytes "e")) cache' = some (.list [.bytes e4]) := by
+    subst hcache
+    rw [lookupC_byt_cons_ne _ _ _ _ (by decide), lookupC_byt_cons_ne _ _ _ _ (by decide), lookupC_byt_cons_eq]
+  have hls : lookupC (.byt (asciiBytes "s")) cache' = some (.list [.bytes csig]) := by
+    subst hcache
+    rw [lookupC_byt_cons_ne _ _ _ _ (by decide), lookupC_byt_cons_ne _ _ _ _ (by decide), lookupC_byt_cons_ne _ _ _ _ (by decide),
+      lookupC_byt_cons_ne _ _ _ _ (by decide), lookupC_byt_cons_eq]
+  have hld : lookupC (.byt (asciiBytes "d")) cache' = some (.list [.bytes dk]) := by
+    subst hcache
+    rw [lookupC_byt_cons_eq]
+  have hcs' : ∀ a s v, SigPure.checkSig H C cfg.lim.maxItemSize cache' a s v = SigPure.checkSig H C cfg.lim.maxItemSize sh.cache a s v := by
+    intro a s v
+    subst hcache
+    simp only [checkSig_cons_byt]
+  have hb4ne : b4 ≠ [] := by intro h; rw [h] at hb4; simp at hb4
+  have he4ne : e4 ≠ [] := by intro h; rw [h] at he4; simp at he4
+  -- begin ≤ t (and not ahead of the clock)
+  refine Ends.step (fun r h => run_readCache1 H C cfg _ _ _ (asciiBytes "b") b4 r rfl (by decide) (by decide) hcap hr hlb (by omega) (by simp; omega) h) ?_
+  dsimp only
+  unfold delegateSpec
+  rw [hp36, hp40, hpre]
+  by_cases hab : C16.tsAccept t cfg.now thr b4 = true
+  case neg =>
+    have hab' : C16.tsAccept t cfg.now thr b4 = false := by simpa using hab
+    exact ⟨_, run_ctsv_fail H C cfg _ _ _ b4 (pre :: sig :: st) t thr rfl hcap hr rfl hb4ne hts hthr (by omega) (by simp; omega) hab',
+      by simp [Res.summary, hab']⟩
+  refine Ends.step (fun r h => run_ctsv_ok H C cfg _ _ _ b4 (pre :: sig :: st) t thr r rfl hcap hr rfl hb4ne hts hthr (by omega) (by simp; omega) hab h) ?_
+  dsimp only
+  -- not (end ≤ t …)
+  refine Ends.step (fun r h => run_readCache1 H C cfg _ _ _ (asciiBytes "e") e4 r rfl (by decide) (by decide) hcap hr hle (by omega) (by simp; omega) h) ?_
+  dsimp only
+  refine Ends.step (fun r h => run_cts H C cfg _ _ _ e4 (pre :: sig :: st) t thr r rfl hcap hr rfl he4ne hts hthr (by omega) (by simp; omega) h) ?_
+  dsimp only
+  refine Ends.step (fun r h => run_not H C cfg _ _ _ (boolBytes (C16.tsAccept t cfg.now thr e4)) (pre :: sig :: st) r rfl hcap hr rfl
+    (by cases C16.tsAccept t cfg.now thr e4 <;> simp [boolBytes] <;> omega) (by simp; omega) h) ?_
+  dsimp only
+  by_cases hae : C16.tsAccept t cfg.now thr e4 = true
+  · exact ⟨_, run_verify_false H C cfg _ _ _ (notBytes (boolBytes (C16.tsAccept t cfg.now thr e4))) (pre :: sig :: st) rfl hcap hr rfl
+        (by rw [hae]; decide), by simp [Res.summary, hab, hae]⟩
+  have hae' : C16.tsAccept t cfg.now thr e4 = false := by simpa using hae
+  refine Ends.step (fun r h => run_verify_true H C cfg _ _ _ (notBytes (boolBytes (C16.tsAccept t cfg.now thr e4))) (pre :: sig :: st) r rfl hcap hr rfl
+    (by rw [hae']; decide) h) ?_
+  dsimp only
+  -- certificate signature under the root
+  refine Ends.step (fun r h => run_readCache1 H C cfg _ _ _ (asciiBytes "s") csig r rfl (by decide) (by decide) hcap hr hls (by omega) (by simp; omega) h) ?_
+  dsimp only
+  refine Ends.step (fun r h => run_swap2 H C cfg _ _ _ csig pre (sig :: st) r rfl hcap hr rfl (by omega) (by omega) (by simp; omega) h) ?_
+  dsimp only
+  refine Ends.step (fun r h => run_pushB H C cfg _ _ root _ r (by omega) (by omega) rfl hcap hr (by omega) (by simp; omega) h) ?_
+  dsimp only
+  refine Ends.step (fun r h => run_css H C cfg _ _ _ root pre csig (sig :: st) r rfl hcap hr rfl hroot hcs (by omega) (by simp; omega) h) ?_
+  dsimp only
+  by_cases hv : Sodium.verify H C root pre csig = true
+  case neg =>
+    have hv' : Sodium.verify H C root pre csig = false := by simpa using hv
+    exact ⟨_, run_verify_false H C cfg _ _ _ (boolBytes (Sodium.verify H C root pre csig)) (sig :: st) rfl hcap hr rfl
+        (by rw [hv']; decide), by simp [Res.summary, hab, hae', hv']⟩
+  refine Ends.step (fun r h => run_verify_true H C cfg _ _ _ (boolBytes (Sodium.verify H C root pre csig)) (sig :: st) r rfl hcap hr rfl
+    (by rw [hv]; decide) h) ?_
+  dsimp only
+  -- final signature under the delegate key
+  refine Ends.step (fun r h => run_readCache1 H C cfg _ _ _ (asciiBytes "d") dk r rfl (by decide) (by decide) hcap hr hld (by omega) (by simp; omega) h) ?_
+  dsimp only
+  refine ⟨_, run_checksig_last H C cfg hno _ _ flags dk sig st rfl hfl hcap hr rfl (by omega) (by omega), ?_⟩
+  dsimp only
+  rw [hcs']
+  simp only [hab, hae', hv, Bool.true_eq_false, Bool.false_eq_true, ↓reduceIte]
+  cases SigPure.checkSig H C cfg.lim.maxItemSize sh.cache flags sig dk <;> rfl
+
+
+/-- the two window instructions together accept exactly `begin ≤ t < end` with `t` not ahead of
+    the verifier clock by the slack threshold or more -/
+theorem window_iff (t now thr : Int) (b4 e4 : Bytes) :
+    (C16.tsAccept t now thr b4 = true ∧ C16.tsAccept t now thr e4 = false) ↔
+      ((natOfBytesBE b4 : Int) ≤ t ∧ t < (natOfBytesBE e4 : Int) ∧ (thr ≤ 0 ∨ t - now < thr)) := by
+  unfold C16.tsAccept
+  simp only [decide_eq_true_eq, decide_eq_false_iff_not]
+  constructor
+  · intro ⟨⟨h1, h2⟩, h3⟩
+    refine ⟨h1, ?_, h2⟩
+    by_cases h : t < (natOfBytesBE e4 : Int)
+    · exact h
+    · exact absurd ⟨by omega, h2⟩ h3
+  · intro ⟨h1, h2, h3⟩
+    exact ⟨⟨h1, h3⟩, fun ⟨h4, _⟩ => by omega⟩
+
+/-- **C14, single-certificate lock: accepted exactly when the property's sentence holds.** With the
+    witness having left exactly `[cert, sig]`, the lock ends without error on the stack `[ff]` iff
+    `begin ≤ t < end`, `t` is not ahead of the clock by the slack or more, the certificate is signed
+    by the root key over (delegate ‖ begin ‖ end ‖ may), and the final signature passes the C02
+    specification under the delegate key. -/
+theorem delegateKeyLock_accepts_iff (cfg : Cfg) (hno : cfg.sigExts = []) (root dk b4 e4 csig sig : Bytes) (m : UInt8)
+    (flags : Nat) (sh : Shared) (count : Nat) (t thr : Int)
+    (hroot : root.length = 32) (hdk : dk.length = 32) (hb4 : b4.length = 4) (he4 : e4.length = 4) (hcs : csig.length = 64)
+    (hfl : flags < 256)
+    (hs : sh.stack = [dk ++ b4 ++ e4 ++ [m] ++ csig, sig]) (hr : sh.returned = false)
+    (ht : lookupC C16.tsKey sh.cache = some (.atom (.int t))) (hthr : cfg.tsThreshold = some thr)
+    (hsz : 105 ≤ cfg.lim.maxItemSize) (hroom : 6 ≤ cfg.lim.maxItems) :
+    (∃ r, TSteps (instrTable H C cfg) cfg.lim (topFrame (delegateKeyLock root flags) count) sh r ∧
+        Res.summary r = .ok [[0xff]]) ↔
+      ((natOfBytesBE b4 : Int) ≤ t ∧ t < (natOfBytesBE e4 : Int) ∧ (thr ≤ 0 ∨ t - cfg.now < thr) ∧
+        Sodium.verify H C root (dk ++ b4 ++ e4 ++ [m]) csig = true ∧
+        SigPure.checkSig H C cfg.lim.maxItemSize sh.cache flags sig dk = .ok true) := by
+  obtain ⟨r0, hr0, hsum⟩ := delegateKeyLock_run H C cfg hno root dk b4 e4 csig sig m flags [] sh count t thr
+    hroot hdk hb4 he4 hcs hfl hs hr ht hthr hsz (by simpa using hroom)
+  have hw := window_iff t cfg.now thr b4 e4
+  unfold delegateSpec at hsum
+  generalize hpre : dk ++ b4 ++ e4 ++ [m] = pre at *
+  generalize hA : C16.tsAccept t cfg.now thr b4 = A at *
+  generalize hE : C16.tsAccept t cfg.now thr e4 = E at *
+  generalize hV : Sodium.verify H C root pre csig = V at *
+  constructor
+  · intro ⟨r, hrun, hok⟩
+    have : r = r0 := TSteps.det hrun hr0
+    subst this
+    rw [hsum] at hok
+    cases A with
+    | false => simp only [↓reduceIte] at hok; cases hok
+    | true =>
+      cases E with
+      | true => simp only [Bool.true_eq_false, ↓reduceIte] at hok; cases hok
+      | false =>
+        cases V with
+        | false => simp only [Bool.true_eq_false, Bool.false_eq_true, ↓reduceIte] at hok; cases hok
+        | true =>
+          simp only [Bool.true_eq_false, Bool.false_eq_true, ↓reduceIte] at hok
+          obtain ⟨h1, h2, h3⟩ := hw.mp ⟨rfl, rfl⟩
+          refine ⟨h1, h2, h3, rfl, ?_⟩
+          cases hc : SigPure.checkSig H C cfg.lim.maxItemSize sh.cache flags sig dk with
+          | error e => rw [hc] at hok; cases hok
+          | ok b =>
+            rw [hc] at hok
+            cases b with
+            | true => rfl
+            | false => simp [boolBytes] at hok
+  · intro ⟨h1, h2, h3, hv, hc⟩
+    obtain ⟨hab, hae⟩ := hw.mpr ⟨h1, h2, h3⟩
+    refine ⟨r0, hr0, ?_⟩
+    rw [hsum, hab, hae, hv, hc]
+    simp [boolBytes]
+
+
+/-- … stated for a `Certificate`: the lock accepts `[pack c, sig]` exactly when
+    `c.begin ≤ t < c.end`, `t` is within the clock slack, `c` is signed by the root key over its
+    preimage, and `sig` passes the C02 specification under `c.delegate`. -/
+theorem delegateKeyLock_accepts_cert (cfg : Cfg) (hno : cfg.sigExts = []) (root sig : Bytes) (c : Certificate)
+    (flags : Nat) (sh : Shared) (count : Nat) (t thr : Int)
+    (hroot : root.length = 32) (hd : c.delegate.length = 32) (hb : c.beginTs < 2 ^ 32) (he : c.endTs < 2 ^ 32)
+    (hcs : c.signature.length = 64) (hfl : flags < 256)
+    (hs : sh.stack = [Certificate.pack c, sig]) (hr : sh.returned = false)
+    (ht : lookupC C16.tsKey sh.cache = some (.atom (.int t))) (hthr : cfg.tsThreshold = some thr)
+    (hsz : 105 ≤ cfg.lim.maxItemSize) (hroom : 6 ≤ cfg.lim.maxItems) :
+    (∃ r, TSteps (instrTable H C cfg) cfg.lim (topFrame (delegateKeyLock root flags) count) sh r ∧
+        Res.summary r = .ok [[0xff]]) ↔
+      ((c.beginTs : Int) ≤ t ∧ t < (c.endTs : Int) ∧ (thr ≤ 0 ∨ t - cfg.now < thr) ∧
+        Sodium.verify H C root (Certificate.preimage c) c.signature = true ∧
+        SigPure.checkSig H C cfg.lim.maxItemSize sh.cache flags sig c.delegate = .ok true) := by
+  have h256 : (256 : Nat) ^ 4 = 2 ^ 32 := by decide
+  have hnb : natOfBytesBE (pad4 c.beginTs) = c.beginTs := by
+    unfold pad4; rw [natOf_natTo, h256, Nat.mod_eq_of_lt hb]
+  have hne : natOfBytesBE (pad4 c.endTs) = c.endTs := by
+    unfold pad4; rw [natOf_natTo, h256, Nat.mod_eq_of_lt he]
+  have := delegateKeyLock_accepts_iff H C cfg hno root c.delegate (pad4 c.beginTs) (pad4 c.endTs) c.signature sig
+    (if c.may then 0xff else 0x00) flags sh count t thr hroot hd (natToBytesBE_length 4 _) (natToBytesBE_length 4 _) hcs hfl
+    (by rw [hs]; rfl) hr ht hthr hsz hroom
+  rw [hnb, hne] at this
+  exact this
 
 end TV.C14
